@@ -77,7 +77,8 @@ def history_campaign(ctx, out, judge, *, n_hist, n_steps, profiles, labels_sets,
         size_max = 0
         for i in range(n_steps):
             ti = 0 if ctx.rng.random() < 0.7 else 1
-            op = H.random_op(ctx.rng, r.impl, ti, labels=labels, typed=cfg["typed"], malformed=prof.get("malformed", 0.1), ops=prof.get("ops"))
+            op = H.random_op(ctx.rng, r.impl, ti, labels=labels, typed=cfg["typed"], malformed=prof.get("malformed", 0.1), ops=prof.get("ops"),
+                             did_rate=prof.get("did_rate", 0.15), dids=prof.get("dids", (1001, 1002, "x", "y", 7)))
             s = r.step(op)
             log.append(H.clean(op))
             size_max = max(size_max, s.n_nodes)
